@@ -2,6 +2,7 @@ package bus
 
 import (
 	"bytes"
+	"sync"
 	"time"
 
 	"github.com/lugu/qiloop/bus/net"
@@ -23,7 +24,10 @@ type Channel interface {
 // server.
 type channel struct {
 	capability CapabilityMap
-	endpoint   net.EndPoint
+	// capMutex protects the authentication state: it is read by
+	// the connection (firewall) while service zero updates it.
+	capMutex sync.RWMutex
+	endpoint net.EndPoint
 }
 
 // NewChannel retuns a channel
@@ -77,11 +81,15 @@ func (c *channel) Authenticate() error {
 
 // Authenticated returns true if the connection is authenticated.
 func (c *channel) Authenticated() bool {
+	c.capMutex.RLock()
+	defer c.capMutex.RUnlock()
 	return c.capability.Authenticated()
 }
 
 // SetAuthenticated marks the context as authenticated.
 func (c *channel) SetAuthenticated() {
+	c.capMutex.Lock()
+	defer c.capMutex.Unlock()
 	c.capability.SetAuthenticated()
 }
 
